@@ -19,7 +19,7 @@ import numpy as np
 
 import sim  # noqa: F401
 from sim import build
-from sim.core import attempt, deep_tier, exc_tag
+from sim.core import attempt, bulk_tier, deep_tier, exc_tag
 from sim.oracle import snap, snap_diff
 from sim.simfs import SimFS, mounted
 
@@ -68,6 +68,9 @@ def generate(rng, seed, part):
            "name": rng.choice([None, "hist", "my histogram", "\u00e9chantillon \u03b1"]), "title": rng.choice([None, None, "Title"]),
            "keep_missed": rng.random() < 0.8}
     n = rng.choice([0, 1, 3, 6, 12, 20])
+    bulk = bulk_tier(rng)
+    if bulk:
+        n = rng.choice([500, 2000, 6000])  # documents of tens to hundreds of kilobytes
     if klass in ("h1", "h2", "h3", "collection"):
         ndim = {"h1": 1, "h2": 2, "h3": 3, "collection": 1}[klass]
         fams = ["static", "pairs", "numpy", "fixed", "exp", "adaptive", "near"] if ndim == 1 else \
@@ -79,8 +82,9 @@ def generate(rng, seed, part):
                 axes.append({"kind": "fixed", "width": rng.choice([1.0, 0.5, 0.25, 2.0]), "count": rng.randint(1, 3),
                              "times_min": rng.randint(-3, 3), "adaptive": True})
             else:
-                axes.append(build.gen_axis(rng, max_bins=5 if ndim == 1 else 3,
-                                           families=[f for f in fams if f != "adaptive"]))
+                mb = (5 if ndim == 1 else 3) if not bulk else {1: 250, 2: 30, 3: 10}[ndim]
+                axes.append(build.gen_axis(rng, max_bins=mb, min_bins=1 if not bulk else mb // 2,
+                                           families=[f for f in fams if f != "adaptive"], scaled=0.08))
         wkind = rng.choice(["none", "none", "int", "dyadic", "float", "tiny"])
         cfg.update({"ndim": ndim, "axes": axes, "weights": wkind,
                     "dtype": build.pick_dtype(rng, "float" if wkind == "tiny" else wkind),
@@ -97,6 +101,11 @@ def generate(rng, seed, part):
             entries.append([vals[0] if ndim == 1 else vals, w])
         if klass == "collection":
             cfg["members"] = rng.randint(1, 3)
+            # members own their binning objects: same edges, but possibly another right-edge rule / adaptivity
+            cfg["member_variants"] = [
+                {} if (m == 0 or rng.random() < 0.5) else
+                {"ire": rng.random() < 0.5, "adaptive": axes[0]["kind"] == "fixed" and rng.random() < 0.4}
+                for m in range(cfg["members"])]
     else:
         src_dim = {"polar": 2, "radial": rng.choice([2, 3]), "azimuthal": 2, "spherical": 3, "spherical_surface": 3,
                    "cylindrical": 3, "cylindrical_surface": 3}[klass]
@@ -135,11 +144,11 @@ def generate(rng, seed, part):
             kind = rng.choice(["open_fail", "enospc", "eio_close", "eio_read", "short_read"])
             site = {"open_fail": "open", "enospc": "write", "eio_close": "close", "eio_read": "read",
                     "short_read": "read"}[kind]
-            ops.append({"op": "arm", "fault": {"site": site, "kind": kind, "after": rng.choice([0, 1, 17, 120, 5000])}})
+            ops.append({"op": "arm", "fault": {"site": site, "kind": kind, "after": rng.choice([0, 1, 17, 120, 5000] if not bulk else [120, 5000, 20000, 70000])}})
         elif r < 0.92:
             ops.append({"op": "checkpoint", "path": rng.choice(PATHS)})
         elif cfg["faults"]:
-            ops.append({"op": "crash", "torn": rng.choice([None, None, 0, 1, 40, 300]),
+            ops.append({"op": "crash", "torn": rng.choice([None, None, 0, 1, 40, 300] if not bulk else [None, 300, 9000, 40000]),
                         "during_save": rng.random() < 0.5, "path": rng.choice(PATHS)})
     return {"property": PROPERTY, "scenario": "persistence", "config": cfg, "entries": entries, "ops": ops}
 
@@ -172,7 +181,13 @@ def make_node(cfg, entries):
     elif klass == "collection":
         members = []
         for m in range(cfg["members"]):
-            mh = Histogram1D(build.make_binning(cfg["axes"][0]), name=f"m{m}",
+            var = (cfg.get("member_variants") or [{}] * cfg["members"])[m]
+            spec = dict(cfg["axes"][0])
+            if var:
+                spec["ire"] = var["ire"]
+                if var.get("adaptive"):
+                    spec["adaptive"] = True
+            mh = Histogram1D(build.make_binning(spec), name=f"m{m}",
                              **({"dtype": np.dtype(cfg["dtype"])} if cfg["dtype"] else {}))
             sel = [k for k in range(len(idx)) if k % cfg["members"] == m]
             if sel:
